@@ -269,8 +269,49 @@ macro_rules | `(tactic| fp_leaf) => `(tactic| exact FP.qvalue)
 theorem FP.parseRegularQuantity : FP (parseRegularQuantity (α := α)) := by
   unfold Cook.parseRegularQuantity; fp_auto
 macro_rules | `(tactic| fp_leaf) => `(tactic| exact FP.parseRegularQuantity)
+/- spelled out step by step: `fp_auto` tries every leaf lemma by unification on every goal and ran out of
+   heartbeats on this body once the blank test became a `find?` (the model after the repair of F-C17-1) -/
 theorem FP.parseAdvancedQuantity : FP (parseAdvancedQuantity (α := α)) := by
-  unfold Cook.parseAdvancedQuantity; fp_auto
+  unfold Cook.parseAdvancedQuantity
+  refine FP.bind (FP.of_FQ FQ.allToks) fun all => ?_
+  split
+  · exact FP.pure _
+  refine FP.bind (FP.of_FQ FQ.scalingLock) fun lock => ?_
+  refine FP.bind (FP.of_FQ FQ.wsComments) fun _ => ?_
+  refine FP.bind (FP.of_FQ (FQ.consumeWhile _)) fun vt => ?_
+  split
+  · exact FP.pure _
+  split
+  · exact FP.pure _
+  dsimp only
+  split
+  · refine FP.bind (FP.of_FQ (FQ.panicWith _)) fun _ => ?_
+    refine FP.bind (FP.of_FQ FQ.consumeRest) fun ut => ?_
+    split
+    · exact FP.pure _
+    refine FP.bind (FP.of_FQ (FQ.hasExt _)) fun rangeExt => ?_
+    split
+    · exact FP.pure _
+    refine FP.bind (α := α) ?_ fun v => ?_
+    · split
+      · exact FP.pure _
+      · exact FP.bind (FP.pushErr _) fun _ => FP.pure _
+    refine FP.bind (FP.of_FQ (FQ.bpText _ _)) fun unit => ?_
+    refine FP.bind (FP.of_FQ (FQ.tokensSpanP _ _)) fun sp => ?_
+    exact FP.pure _
+  · refine FP.bind (FP.of_FQ FQ.consumeRest) fun ut => ?_
+    split
+    · exact FP.pure _
+    refine FP.bind (FP.of_FQ (FQ.hasExt _)) fun rangeExt => ?_
+    split
+    · exact FP.pure _
+    refine FP.bind (α := α) ?_ fun v => ?_
+    · split
+      · exact FP.pure _
+      · exact FP.bind (FP.pushErr _) fun _ => FP.pure _
+    refine FP.bind (FP.of_FQ (FQ.bpText _ _)) fun unit => ?_
+    refine FP.bind (FP.of_FQ (FQ.tokensSpanP _ _)) fun sp => ?_
+    exact FP.pure _
 macro_rules | `(tactic| fp_leaf) => `(tactic| exact FP.parseAdvancedQuantity)
 
 theorem FP.parseQuantity (q : List Tok) : FP (parseQuantity (α := α) q) := by
